@@ -221,13 +221,20 @@ pub fn run(ctx: &Ctx, rep: &mut Report) {
 /// multiples, powers of two, one less / one more): message bits at both ends and on a stride are flipped.
 fn long_messages(ctx: &Ctx, rep: &mut Report) {
     let sub = "long_message_flips";
-    let lens: Vec<u32> = crate::gen::MSG_LENS.iter().copied().filter(|l| *l >= 1000).collect();
+    let mut lens: Vec<u32> = crate::gen::MSG_LENS.iter().copied().filter(|l| *l >= 1000).collect();
+    lens.extend(crate::props::c03::LONG_MSG_LENS);
     let mut cases: Vec<Case> = Vec::new();
     for set in 0..3u8 {
         for (li, len) in lens.iter().enumerate() {
             for mode in 0..4u8 {
                 if ctx.quick() && (li + usize::from(mode) + usize::from(set)) % 2 == 1 && mode == 0 {
                     continue; // quick tier: half of the pure-mode tuples
+                }
+                if *len >= 65_535 && (li + usize::from(set)) % 3 != 0 {
+                    continue; // very long messages: one parameter set per length
+                }
+                if ctx.quick() && *len > (1 << 20) + 168 && mode % 2 == 1 {
+                    continue;
                 }
                 let s = hash_of(&(ctx.seed, "c05-long", set, len, mode));
                 let base = BaseSpec::Honest(HonestSpec { key: Seed32::Uniform(s % 4), msg: BytesSpec { len: *len, constant: None, seed: s }, ctx: BytesSpec { len: (s % 3) as u32, constant: None, seed: s ^ 1 }, mode, rnd: Seed32::Uniform(s ^ 2) });
@@ -247,7 +254,13 @@ fn long_messages(ctx: &Ctx, rep: &mut Report) {
                 Err(f) => return (st, Some((Case { bit: u32::MAX, ..c.clone() }, f))),
             };
             let nbits = t.m.len() * 8;
-            let mut bits: Vec<usize> = (0..64.min(nbits)).chain(nbits.saturating_sub(512)..nbits).chain((0..nbits).step_by(97)).collect();
+            let mut bits: Vec<usize> = if nbits >= 8 * 65_535 {
+                // very long messages: both ends, the bits around 2^16 / 2^20 / 2^24 bytes, and a coarse stride
+                let marks = [1usize << 19, 1 << 23, 1 << 27];
+                (0..8).chain(nbits - 32..nbits).chain(marks.iter().flat_map(|m| [m - 1, *m, m + 7]).filter(|b| *b < nbits)).chain((0..nbits).step_by(nbits / 8 + 1)).collect()
+            } else {
+                (0..64.min(nbits)).chain(nbits.saturating_sub(512)..nbits).chain((0..nbits).step_by(97)).collect()
+            };
             bits.sort_unstable();
             bits.dedup();
             st.class(&format!("msg_len={}", t.m.len()));
